@@ -1439,6 +1439,57 @@ def oracle_numeric_strings(ctx):
                          {"check": "numeric-strings", "value": x, "where": where, "reported": texts.get(where)})
 
 
+def oracle_grammar_witnesses(ctx):
+    """The instances behind Props/C15_grammar.lean on the REAL code (audit 2, finding 3): the code-first twin of the Lean
+    `witnessSchema` (enum E {A = "A", B = 1}, input I {a: Int, e: [E]}) and of `witnessSchemaJ` (`default_scalar("J")`).
+    For each (type, declared default): the reported text is EXACTLY the text of the Lean theorem, the real `parse_value` accepts
+    it, and the real `value_from_ast` gives back the declared default (`default_value_roundtrip_instances_partial`,
+    `default_value_roundtrip_stand_in_non_number`) - except a NUMBER default at the stand-in scalar, which reads back as its
+    source text (`default_value_roundtrip_refuted_custom_scalar`; C07's finding A10 seen from introspection: known finding I22).
+    Also: the two texts `readLit` accepts and the grammar refuses ARE refused by the real parser (`readLit_laxer_than_grammar`)."""
+    from py_gql.exc import GraphQLSyntaxError
+    from py_gql.lang import parse_value
+    from py_gql.schema import EnumType, EnumValue, ID, InputField, InputObjectType, Int, ListType, String
+    from py_gql.schema.scalars import default_scalar
+    from py_gql.utilities import value_from_ast
+    E = EnumType("E", [EnumValue("A", "A"), EnumValue("B", 1)])
+    I = InputObjectType("I", [InputField("a", Int), InputField("e", ListType(E))])
+    Jt = default_scalar("J")
+    rows = [("Int", Int, 3, "3"), ("E", E, 1, "B"), ("[E]", ListType(E), [1, "A"], "[B, A]"),
+            ("I", I, {"a": 3, "e": [1]}, "{a: 3, e: [B]}"), ("String", String, "x\ny", '"x\\ny"'), ("ID", ID, "7", '"7"'),
+            ("I:null", I, None, "null"),
+            ("J:str", Jt, "s", '"s"'), ("J:bool", Jt, True, "true"), ("J:list", Jt, [True, "k"], '[true, "k"]'), ("J:null", Jt, None, "null"),
+            ("J:number", Jt, 5, "5")]
+    for name, t, dv, lean_text in rows:
+        ctx.count()
+        ctx.nontrivial(("grammar-witness", name))
+        st, text = L.reported_default(t, dv)
+        if st != "ok" or text != lean_text:
+            ctx.fail("corr:grammar-witness:reported-text:" + name, "the reported default text differs from the text of the Lean instance",
+                     {"check": "grammar-witnesses", "instance": name, "impl": [st, text], "model": lean_text}, kind="correspondence")
+            continue
+        try:
+            back = value_from_ast(parse_value(text), t)
+        except GraphQLSyntaxError:
+            ctx.fail("default-not-graphql:grammar-witness:" + name, "the reported default is refused by parse_value",
+                     {"check": "grammar-witnesses", "instance": name, "reported": text})
+            continue
+        same = L.same_value(back, dv) and type(back) is type(dv)
+        ctx.stat("grammar-witness:%s:%s" % (name, "reads-back" if same else "differs"))
+        if not same:
+            ctx.fail("default-not-declared:stand-in-scalar:number-reads-back-as-text" if name == "J:number" else "default-not-declared:grammar-witness:" + name,
+                     "declared default %r is reported as %r, which reads back (parse_value + value_from_ast) as %r" % (dv, text, back),
+                     {"check": "grammar-witnesses", "instance": name, "reported": text, "declared": repr(dv), "read_back": repr(back)})
+    for text in ("1.e+-", "{a:1.}"):
+        ctx.count()
+        try:
+            parse_value(text)
+            ctx.fail("corr:grammar-witness:lax-text-accepted", "a text the lexer model refuses is accepted by parse_value",
+                     {"check": "grammar-witnesses", "text": text}, kind="correspondence")
+        except GraphQLSyntaxError:
+            ctx.stat("grammar-witness:lax-text-refused")
+
+
 EQ_COLLIDING = [("i1", 1), ("t", True), ("f1", 1.0), ("i0", 0), ("fa", False), ("f0", 0.0)]
 
 
@@ -1613,6 +1664,7 @@ def run(ctx):
         oracle_directive_locations(ctx)
         oracle_numeric_strings(ctx)
         oracle_derived_defaults(ctx)
+        oracle_grammar_witnesses(ctx)
         _run(ctx)
     finally:
         L.shutdown()
@@ -1661,9 +1713,9 @@ def replay(ctx, data):
         oracle_eq_colliding_defaults(sub)
         return not any(f["signature"] == data.get("signature") for f in sub.found)
     if inp.get("check") in ("directive-locations", "numeric-strings", "null-reason", "inexpressible-defaults", "meta-below-non-query", "hunt3", "hunt3-findings",
-                            "derived-defaults"):
+                            "derived-defaults", "grammar-witnesses"):
         sub = Ctx2(ctx)
-        {"directive-locations": oracle_directive_locations, "numeric-strings": oracle_numeric_strings, "derived-defaults": oracle_derived_defaults,
+        {"directive-locations": oracle_directive_locations, "grammar-witnesses": oracle_grammar_witnesses, "numeric-strings": oracle_numeric_strings, "derived-defaults": oracle_derived_defaults,
          "null-reason": oracle_null_reason, "inexpressible-defaults": oracle_inexpressible_defaults,
          "meta-below-non-query": oracle_meta_below_non_query, "hunt3": oracle_hunt3, "hunt3-findings": oracle_hunt3_findings}[inp["check"]](sub)
         return not any(f["signature"] == data.get("signature") for f in sub.found)
